@@ -21,7 +21,7 @@ print('| seeded change | round | what it is and what it needs (summary of the au
 print('|---|---|---|---|---|---|---|')
 def fmt(ch):
     return '; '.join('%s -> %s %s' % (p, v['rc'], ' '.join('`%s`' % x for x in str(v.get('signatures', '')).split(',')[:2] if x)) for p, v in ch.items())
-tot = {1: [0, 0, 0], 2: [0, 0, 0], 3: [0, 0, 0]}
+tot = {k: [0, 0, 0] for k in (1, 2, 3, 4, 5)}
 for d in sorted(glob.glob(V + '/seeded/*')):
     m = json.load(open(d + '/meta.json'))
     rnd = m.get('round', 1)
@@ -34,5 +34,5 @@ for d in sorted(glob.glob(V + '/seeded/*')):
     print('| %s | %d | %s | %s/%s | %s | %s | %s |' % (m['id'], rnd, m.get('summary', ''), m['demo_rc_clean_tree'], m['demo_rc_patched_tree'],
           '58/58' if '58/58' in m['baseline_with_patch'] else m['baseline_with_patch'][:40], fmt(first), 'same' if first is final or m.get('first_run_checks') is None else fmt(final)))
 print()
-for r in (1, 2, 3):
+for r in sorted(k for k in tot if tot[k][0]):
     print('round %d: %d changes, %d reported by the own-property quick check at first run, %d reported by some quick check now' % (r, tot[r][0], tot[r][1], tot[r][2]))
